@@ -11,14 +11,23 @@ KNOWS the graph registered or assigned in EARLIER calls:
   * names the graph assigned.
 
 R under-approximates what the graph registered (inputs/initializers added later and renames after
-the add are not in R, and within one call the order of registration is an implementation
-detail, so explicit names of the SAME call are not in R either), hence an alarm is always a real
-repetition of a name the graph had registered or assigned before.
+the add are not in R), hence an alarm is always a real repetition of a name the graph had
+registered or assigned before.
+
+Within ONE call "before" is the public order of the call's arguments: a graph adds the nodes of
+extend / insert_* / Node.prepend / Node.append / Graph(nodes=...) in the order of the sequence it
+was given, a node's outputs in the order of ``node.outputs``, and Graph(...) has its inputs and
+initializers before any of its nodes is added.  An explicit name at an EARLIER position of the same
+call is therefore registered before a name is assigned at a LATER position (clause A4); an explicit
+name at a later position (or unordered: input vs initializer of one constructor call) was not
+registered before, the statement is silent about it and the equality is counted report_only.
 
 Clauses
   A1  an assigned name is in R (of the same graph and namespace: nodes / values)
   A2  two objects were assigned the same name by one graph in one call (one of them came second)
   A3  a call that adds nodes / constructs a graph altered a name that was not None before it
+  A4  an assigned name equals an explicit name at an earlier position of the same call (an earlier output
+      of the same node, a node earlier in the sequence argument, an input/initializer of the constructor)
 """
 
 from __future__ import annotations
@@ -35,6 +44,9 @@ VAL_NAMES = [None, None, None, None, "val_0", "val_1", "val_2", "val_3", "val_4"
 # convenience.replace_nodes_and_values is left out of the alphabet: it propagates names from the old to the
 # new values by design (a documented rename, not "adding a node"), before the new nodes enter the graph
 ADD_OPS = {"node", "graph", "append", "extend", "ins_before", "ins_after", "n_prepend", "n_append"}
+# index, in the operation descriptor, of the node (sequence) argument whose order is the order of adding
+_ARG_NODES = {"append": 2, "extend": 2, "ins_before": 3, "ins_after": 3, "n_prepend": 2, "n_append": 2, "graph": 3}
+_CTOR_POS = (-1, 0)  # inputs / initializers of Graph(...): before every node, unordered among themselves
 
 WEIGHTS_A = dict.fromkeys(DEFAULT_WEIGHTS, 0)
 WEIGHTS_A.update({
@@ -61,6 +73,138 @@ class GenA(Gen):
         if r < 0.9:
             return f"node_{self.rng.choice(OPS_A)}_{self.rng.randrange(7)}" if r > 0.8 else f"node_{op_type}_{self.rng.randrange(7)}"
         return self.rng.choice(["n", "", "val_1"])
+
+    # ---- mixed-output scenarios ------------------------------------------------------------------------
+    # A short planned sequence of ordinary operations, resumed one operation per op() call so that every step
+    # can look at the world the previous step left: (optionally) learn where the target graph's counters stand
+    # by adding an unnamed probe node and reading the names it was given, create values whose names are a mix
+    # of None / generated-shaped names at or just above the counter / plain names in a random order, make them
+    # the outputs of one node (or of two nodes of one sequence argument) and add the node(s) to the graph through
+    # one of the adding calls.  Nothing here is special to a call: the steps are entries of the shared alphabet.
+    MIXED_PATHS = ["append", "extend", "ins_before", "ins_after", "n_prepend", "n_append", "node_graph", "graph_ctor"]
+    mixed_rate = 0.045
+    _scn = None
+
+    def op(self):
+        if self._scn is not None:
+            try:
+                return next(self._scn)
+            except StopIteration:
+                self._scn = None
+        w = self.w
+        if w.graphs and len(w.nodes) >= 2 and len(w.values) >= 3 and self.rng.random() < self.mixed_rate:
+            self._scn = self._mixed_scenario()
+            return next(self._scn)
+        return super().op()
+
+    def _estimate(self, g):
+        """Lower bounds of the graph's value / node counters from what is publicly visible in it now."""
+        vb = nb = 0
+        try:
+            vals = list(g.inputs) + list(g.initializers.values()) + [v for n in g for v in n.outputs]
+            for v in vals:
+                m = _VAL_RE.match(v.name or "")
+                if m:
+                    vb = max(vb, int(m.group(1)) + 1)
+            for n in g:
+                m = _NODE_RE.match(n.name or "")
+                if m:
+                    nb = max(nb, int(m.group(2)) + 1)
+        except Exception:  # noqa: BLE001 - a graph whose accessors fail is not this generator's business
+            pass
+        return vb, nb
+
+    def _mixed_scenario(self):
+        rng, w = self.rng, self.w
+        path = rng.choice(self.MIXED_PATHS)
+        c = g = None
+        vbase = nbase = 0
+        if path != "graph_ctor":
+            c = self.any_c()
+            g = self.cont_graph(c)
+            vbase, nbase = self._estimate(g)
+            if rng.random() < 0.65 or (path in ("ins_before", "ins_after", "n_prepend", "n_append") and not len(g)):
+                # probe: an unnamed single-output node constructed into the container; the names the graph gives it
+                # tell where its counters stand
+                n0 = len(w.nodes)
+                yield ["node", rng.choice(OPS_A), [], 1, None, c, None, None]
+                if len(w.nodes) > n0 and w.nodes[n0].graph is g and len(w.nodes[n0].outputs) == 1:
+                    m = _VAL_RE.match(w.nodes[n0].outputs[0].name or "")
+                    if m:
+                        vbase = int(m.group(1)) + 1
+                    m = _NODE_RE.match(w.nodes[n0].name or "")
+                    if m:
+                        nbase = int(m.group(2)) + 1
+        # --- the output pattern: U unnamed, S generated-shaped at/above the counter, P plain --------------------
+        k = rng.choice([2, 2, 3, 3, 4])
+        pattern = ["U", "S"] + [rng.choice("USSP") for _ in range(k - 2)]
+        rng.shuffle(pattern)
+        n_u = pattern.count("U")
+        ctor_inputs = []
+        if path == "graph_ctor":
+            ctor_inputs = [rng.choice("USP") for _ in range(rng.randint(0, 2))]
+            vbase = ctor_inputs.count("U")  # unnamed inputs are named first
+        offs = list(range(n_u + 1))
+        rng.shuffle(offs)
+
+        def name_of(kind):
+            if kind == "U":
+                return None
+            if kind == "P":
+                return rng.choice(["keep", "x", "w", "out"])
+            return f"val_{vbase + (offs.pop() if offs else rng.randrange(n_u + 2))}"
+
+        def make_values(kinds):
+            """One 'val' call per kind; returns the pool indices of the new values (None if a call made none)."""
+            idxs = []
+            for kind in kinds:
+                i = len(w.values)
+                yield ["val", name_of(kind), None, rng.randrange(4)]
+                if len(w.values) <= i:
+                    return None
+                idxs.append(i)
+            return idxs
+
+        in_idx = yield from make_values(ctor_inputs)
+        if in_idx is None:
+            return
+        out_idx = yield from make_values(pattern)
+        if out_idx is None:
+            return
+        # --- one node, or two nodes of one sequence argument ---------------------------------------------------
+        two = path not in ("append", "node_graph") and rng.random() < 0.4
+        cut = rng.randint(1, k - 1) if two else k
+        chunks = [out_idx[:cut]] + ([out_idx[cut:]] if two else [])
+        ops = [rng.choice(OPS_A) for _ in chunks]
+        if two and rng.random() < 0.6:
+            # node namespace: an explicit generated-shaped node name on the first node, none on the second
+            names = [f"node_{ops[1]}_{nbase + rng.randrange(2)}", None]
+        else:
+            names = [self.node_name(o) if rng.random() < 0.5 else None for o in ops]
+        node_idx = []
+        for chunk, o, nm in zip(chunks, ops, names):
+            ins = [] if (g is None or rng.random() < 0.5) else [self.v_for_graph(g, False)]
+            j = len(w.nodes)
+            yield ["node", o, ins, None, chunk, c if path == "node_graph" else None, nm, None]
+            if len(w.nodes) <= j:
+                return
+            node_idx.append(j)
+        if path == "node_graph":
+            return
+        seq = list(node_idx)
+        if path != "append" and rng.random() < 0.3 and w.nodes:
+            seq.insert(rng.randrange(len(seq) + 1), self.detached_n())  # a bystander in the same sequence argument
+        single = len(seq) == 1 and rng.random() < 0.5
+        if path == "append":
+            yield ["append", c, seq[0]]
+        elif path == "extend":
+            yield ["extend", c, seq]
+        elif path in ("ins_before", "ins_after"):
+            yield [path, c, self.n_in(g), seq, single]
+        elif path in ("n_prepend", "n_append"):
+            yield [path, self.n_in(g), seq, single]
+        else:
+            yield ["graph", in_idx, [out_idx[-1]] if rng.random() < 0.5 else [], seq, [], rng.choice([None, "g", "main"])]
 
     def _node(self):
         op = super()._node()
@@ -106,7 +250,15 @@ class NameMonitor:
         for n in w.nodes:
             nodes[id(n)] = (n.graph, n.name)
         values = {id(v): v.name for v in w.values}
-        return {"nodes": nodes, "values": values, "ngraphs": len(w.graphs), "had_graph": {id(n) for n in w.nodes if n.graph is not None}}
+        # position of every node in the call's sequence argument (first occurrence), resolved as World.Ns does
+        order = {}
+        idxs = _ARG_NODES.get(op[0])
+        if idxs is not None and w.nodes:
+            arg = op[idxs]
+            for pos, i in enumerate(arg if isinstance(arg, list) else [arg]):
+                order.setdefault(id(w.nodes[i % len(w.nodes)]), pos)
+        return {"nodes": nodes, "values": values, "ngraphs": len(w.graphs), "order": order,
+                "had_graph": {id(n) for n in w.nodes if n.graph is not None}}
 
     # ---- after -----------------------------------------------------------------------------------
     def after(self, w, op, res, pre):
@@ -122,16 +274,21 @@ class NameMonitor:
             return pre["values"].get(id(v), None)
 
         seen_objs = set()
+        # position in the call of every assigned / explicit name: (index in the sequence argument, index in
+        # node.outputs; -1 for the node's own name), _CTOR_POS for constructor inputs/initializers, None = unordered
+        pos_assigned, pos_explicit = [], []
 
-        def see_value(g, v, prov):
+        def see_value(g, v, prov, pos):
             if (id(g), id(v)) in seen_objs:  # one value listed twice (graph inputs, node outputs) is one value
                 return
             seen_objs.add((id(g), id(v)))
             vb = value_before(v)
             if vb is not None:
                 explicit.append((g, "v", vb, prov))
+                pos_explicit.append(pos)
             elif v.name is not None:
                 assigned.append((g, "v", v.name, w.label(v)))
+                pos_assigned.append(pos)
             else:
                 self._count("A_report_only_left_unnamed")
 
@@ -152,22 +309,27 @@ class NameMonitor:
                 self._count("A_nodes_added_existing")
             else:
                 self._count("A_nodes_added_new")
+            p = 0 if st is None else pre["order"].get(id(n))
             if nb is not None:
                 explicit.append((ga, "n", nb, "explicit:node"))
+                pos_explicit.append(None if p is None else (p, -1))
             elif n.name is not None:
                 assigned.append((ga, "n", n.name, w.label(n)))
+                pos_assigned.append(None if p is None else (p, -1))
             else:
                 self._count("A_report_only_left_unnamed")
-            for v in n.outputs:
-                see_value(ga, v, "explicit:node-output")
+            outs = list(n.outputs)
+            for j, v in enumerate(outs):
+                see_value(ga, v, "explicit:node-output", None if p is None else (p, j))
+            self._count_mixed(outs, pre)
         for g in w.graphs[pre["ngraphs"]:]:
             if kind != "graph":
                 continue
             self._count("A_graphs_constructed")
             for v in g.inputs:
-                see_value(g, v, "explicit:ctor-input")
+                see_value(g, v, "explicit:ctor-input", _CTOR_POS)
             for v in g.initializers.values():
-                see_value(g, v, "explicit:ctor-initializer")
+                see_value(g, v, "explicit:ctor-initializer", _CTOR_POS)
 
         # A1 / A2
         seen_here = {}
@@ -185,10 +347,23 @@ class NameMonitor:
             seen_here.setdefault(key, label)
             if len(r) and any(_VAL_RE.match(k) or _NODE_RE.match(k) for k, p in r.items() if p.startswith("explicit")):
                 self._count("A_assigned_with_shaped_explicit_in_R")
-        explicit_here = {(id(g), ns, name) for g, ns, name, _ in explicit}
-        for g, ns, name, _ in assigned:
-            if (id(g), ns, name) in explicit_here:
+        # A4: explicit names at an EARLIER position of the same call were registered before the assignment
+        explicit_here = {}
+        for (g, ns, name, prov), q in zip(explicit, pos_explicit):
+            explicit_here.setdefault((id(g), ns, name), []).append((q, prov))
+        for (g, ns, name, label), p in zip(assigned, pos_assigned):
+            same = explicit_here.get((id(g), ns, name), ())
+            earlier = [(q, prov) for q, prov in same if _earlier(q, p)]
+            if earlier:
+                q, prov = min(earlier)
+                where = _relation(q, p)
+                found.append((f"A4:assigned-name-equals-earlier-explicit-of-same-call|{'value' if ns == 'v' else 'node'}"
+                              f"|prior={prov}:{where}",
+                              f"{w.label(g)} assigned {name!r} to {label} (position {p} of the call) although {prov} "
+                              f"{name!r} at the earlier position {q} of the same call was registered before it"))
+            elif same:
                 self._count("A_report_only_equals_explicit_of_same_call")
+        self._account_same_call(assigned, pos_assigned, explicit, pos_explicit)
         # cross-namespace and live-but-unregistered equalities are not covered by the statement
         for g, ns, name, _ in assigned:
             if name in self._r(g)["n" if ns == "v" else "v"]:
@@ -227,6 +402,43 @@ class NameMonitor:
             self._count("A_exc:" + type(res.exc).__name__)
         return found or None
 
+    # ---- same-call accounting (evidence only) --------------------------------------------------------
+    def _count_mixed(self, outs, pre):
+        """A node that entered a graph with >= 2 outputs of which some were named and some were not."""
+        if len(outs) < 2:
+            return
+        named = [pre["values"].get(id(v)) is not None for v in outs]
+        if any(named) and not all(named):
+            self._count("A_mixed_output_nodes_added")
+            first_named, first_unnamed = named.index(True), named.index(False)
+            self._count("A_mixed_output_nodes:named-first" if first_named < first_unnamed else "A_mixed_output_nodes:unnamed-first")
+
+    def _account_same_call(self, assigned, pos_assigned, explicit, pos_explicit):
+        """How often the deciding situation of A4 was reached: a name was assigned after an explicit generated-shaped
+        name at an earlier position of the same call (checked), and the counter of the graph had to step over that
+        very name during the call (live: any implementation that had not registered it yet would have reused it)."""
+        for (g, ns, name, _), p in zip(assigned, pos_assigned):
+            k = self._idx(ns, name)
+            if k is None or p is None:
+                continue
+            mx = self.maxidx.get(id(g), {"v": -1, "n": -1})[ns]
+            r = self._r(g)[ns]
+            checked = live = False
+            for (g2, ns2, name2, _), q in zip(explicit, pos_explicit):
+                if g2 is not g or ns2 != ns or not _earlier(q, p):
+                    continue
+                e = self._idx(ns, name2)
+                if e is None or e[0] != k[0]:
+                    continue
+                checked = True
+                if name2 not in r and mx < e[1] < k[1]:
+                    live = True
+                    self._count("A_same_call_live:" + _relation(q, p))
+            if checked:
+                self._count("A_same_call_earlier_shaped_explicit_checked")
+            if live:
+                self._count("A_same_call_traps_passed_" + ("value" if ns == "v" else "node"))
+
     # ---- trap accounting (evidence only) -----------------------------------------------------------
     def _idx(self, ns, name):
         m = (_VAL_RE if ns == "v" else _NODE_RE).match(name or "")
@@ -256,6 +468,19 @@ class NameMonitor:
                 # forced skip; for nodes a forced skip only when the op type matched, counted apart
                 self.traps_passed += 1
                 self._count("A_traps_passed_value" if ns == "v" else "A_traps_passed_node")
+
+
+def _earlier(q, p) -> bool:
+    """Position q of a call precedes position p (None = unordered; constructor inputs/initializers precede nodes)."""
+    if q is None or p is None or q == _CTOR_POS and p == _CTOR_POS:
+        return False
+    return q < p
+
+
+def _relation(q, p) -> str:
+    if q == _CTOR_POS:
+        return "ctor-argument"
+    return "same-node" if q[0] == p[0] else "earlier-node"
 
 
 def make_gen(rng, w, hostile):
